@@ -6,7 +6,8 @@ MEMBERSHIP = 'mithril_stm::*::MerkleTreeBatchCommitment::verify_leaves_membershi
 
 
 def has(og, pat):
-    return any(glob_match(pat, o) for o in og)
+    # a field path under the named origin also counts (getters spliced by the inliner make origins more precise)
+    return any(glob_match(pat, o) or (pat[-1] != '*' and glob_match(pat + '.*', o)) for o in og)
 
 
 def batch_path_final_check(ctx, clause):
@@ -175,7 +176,7 @@ def mkmap_verify_rules(ctx, clause):
                 for g in mv.family():
                     if g is mv:
                         continue
-                    names = [cc.best() for cc in g.body.calls()]
+                    names = [cc.best() for cc in g.body.calls()] + [x.name for x in getattr(g, 'inlined_fns', [])]
                     if any('compute_root' in n for n in names) and any(glob_match('*::Add*::add', n) or 'add' in n.rsplit('::', 1)[-1] for n in names):
                         cl_ok = True
                 if not (has(og, 'pty:MKMapProof.sub_proofs') and cl_ok):
